@@ -22,6 +22,9 @@ desc = {
  'round3_first_run_seed0.log': 'round 3 (E, F) FIRST RUN against the harness that had never seen them: 25 of 40',
  'round4_first_run_seed0.log': 'round 4 (G, H) FIRST RUN against the harness that had never seen them: 24 of 40 (2 of them without a failing input)',
  'all160_seed0.log': 'all 160, seed 0, harness after the round-4 extensions',
+ 'round5_first_run_seed0.log': 'round 5 (I, J) FIRST RUN against the harness that had never seen them: 25 of 40 (1 of them without a failing input)',
+ 'all200_seed0.log': 'all 200, seed 0, harness after the round-5 extensions',
+ 'all200_seed1.log': 'all 200, seed 1 (the seed `vp check` uses), same harness',
  'all160_seed1.log': 'all 160, seed 1 (the seed `vp check` uses), same harness',
 }
 for lg in logs:
@@ -30,8 +33,10 @@ for lg in logs:
     out.append('* `%s` — %s: %s' % (lg, d, ', '.join('%s %d' % kv for kv in sorted(c.items()))))
 out += ['', 'Every MISSED entry of the multi-seed sweeps was traced to a trigger the generators reached too rarely, the generator was '
         're-weighted, and the change was re-run with the seed in question (and others) until caught; the three MISSED entries of the '
-        'all160 sweeps (C01C seed 0, C15G seed 1, C18G seed 1) were re-run after the last re-weighting: caught with seeds 0 and 1 '
-        '(48/52, 12/109, 73/82 failing cases).', '',
+        'all160 sweeps (C01C seed 0, C15G seed 1, C18G seed 1) were re-run after the re-weighting: caught with seeds 0 and 1 '
+        '(48/52, 12/109, 73/82 failing cases); the four MISSED entries of the all200 sweeps (C06A seed 0, C04D / C06I / C10C seed 1) likewise: '
+        'caught with seeds 0-3 after the re-weighting (store histories on packed lists with zero tails and on bit vectors, unions '
+        'listing one type at several selectors, gap edits of container encodings).', '',
         '| change | file(s) touched | ' + ' | '.join(l.replace('.log', '').replace('rounds123_', 'r123 ').replace('_', ' ') for l in logs) + ' |',
         '|---|---|' + '---|' * len(logs)]
 for mid, v in rows.items():
